@@ -1,6 +1,7 @@
 /-
-  Key-sorted association lists over `String` keys: the model of a KV store prefix.  Iteration order
-  = byte order of the key (IAVL order for ASCII keys), which matters for the running clamps.
+  Association lists over `String` keys kept in ascending key order: the model of a KV store prefix.
+  Iteration order = order of the keys (IAVL order for ASCII keys), which matters for the running
+  clamps.  `set` replaces an existing key in place, otherwise inserts before the first greater key.
 -/
 namespace Sif
 
@@ -16,14 +17,21 @@ def get (l : AList α) (k : String) : Option α :=
 
 def contains (l : AList α) (k : String) : Bool := (get l k).isSome
 
-/-- insert or replace, keeping ascending key order -/
-def set (l : AList α) (k : String) (v : α) : AList α :=
+/-- replace the value stored under `k` (no-op when absent) -/
+def replace (l : AList α) (k : String) (v : α) : AList α :=
+  match l with
+  | [] => []
+  | (k', v') :: t => if k' = k then (k, v) :: t else (k', v') :: replace t k v
+
+/-- insert a fresh key before the first greater key -/
+def insert (l : AList α) (k : String) (v : α) : AList α :=
   match l with
   | [] => [(k, v)]
-  | (k', v') :: t =>
-    if k' = k then (k, v) :: t
-    else if k < k' then (k, v) :: (k', v') :: t
-    else (k', v') :: set t k v
+  | (k', v') :: t => if k < k' then (k, v) :: (k', v') :: t else (k', v') :: insert t k v
+
+/-- insert or replace -/
+def set (l : AList α) (k : String) (v : α) : AList α :=
+  if l.contains k then l.replace k v else l.insert k v
 
 def erase (l : AList α) (k : String) : AList α :=
   match l with
